@@ -38,6 +38,18 @@ static AnyReceiver subscribe(EventManager& em, int rid) {
     return r;
 }
 template<int N> static void post(EventManager& em) { em.post(typename EvSel<N>::type{N}); }
+// a receiver whose handler records itself and then posts the same event type through ANOTHER manager (a nested dispatch)
+template<int N>
+static AnyReceiver subscribe_fwd(EventManager& em, int rid, EventManager* target) {
+    using E = typename EvSel<N>::type;
+    auto ptr = std::shared_ptr<Receiver<E>>(em.subscribe<E>([rid, target](const E& e) { g_delivered.push_back(rid); target->post(E{e}); }).release());
+    auto holder = std::make_shared<std::shared_ptr<Receiver<E>>>(ptr);
+    AnyReceiver r;
+    r.unsubscribe = [holder] { if (*holder) (*holder)->unsubscribe(); };
+    r.destroy = [holder] { holder->reset(); };
+    r.resubscribe = [holder](EventManager& m) { if (*holder) m.subscribe_<E>(holder->get()); };
+    return r;
+}
 
 static void run_script(const std::vector<std::string>& lines) {
     MemoryManager memory;
@@ -59,6 +71,15 @@ static void run_script(const std::vector<std::string>& lines) {
                 switch (t) { case 0: recvs.push_back(subscribe<0>(*mgrs[m], rid)); break; case 1: recvs.push_back(subscribe<1>(*mgrs[m], rid)); break;
                              case 2: recvs.push_back(subscribe<2>(*mgrs[m], rid)); break; case 3: recvs.push_back(subscribe<3>(*mgrs[m], rid)); break;
                              case 4: recvs.push_back(subscribe<4>(*mgrs[m], rid)); break; default: recvs.push_back(subscribe<5>(*mgrs[m], rid)); break; }
+                printf("R r%d\n", rid);
+            } else printf("R\n");
+        }
+        else if (op == "subfwd") { // subfwd <m> <t 0..3> <m2>: receiver on manager m that forwards the event to manager m2
+            size_t m, m2; int t; in >> m >> t >> m2;
+            if (m < mgrs.size() && mgrs[m] && m2 < mgrs.size() && mgrs[m2]) {
+                const int rid = int(recvs.size());
+                switch (t) { case 0: recvs.push_back(subscribe_fwd<0>(*mgrs[m], rid, mgrs[m2].get())); break; case 1: recvs.push_back(subscribe_fwd<1>(*mgrs[m], rid, mgrs[m2].get())); break;
+                             case 2: recvs.push_back(subscribe_fwd<2>(*mgrs[m], rid, mgrs[m2].get())); break; default: recvs.push_back(subscribe_fwd<3>(*mgrs[m], rid, mgrs[m2].get())); break; }
                 printf("R r%d\n", rid);
             } else printf("R\n");
         }
